@@ -217,6 +217,18 @@ class Type2Tag(Tag):
             self._ndef_tlv_offset = offset
             self._tag_memory = tag_memory
             self._skip_bytes = skip_bytes
+
+            if ndef is not None:
+                # The ndef message tlv must be within the data area
+                # and not be longer than the capacity.
+                data_area_end = data_area_size + 16
+                start = offset + (4 if tag_memory[offset+1] == 0xFF else 2)
+                space = set(range(start, data_area_end)) - skip_bytes
+                if (start > data_area_end or len(ndef) > len(space)
+                        or len(ndef) > self._capacity):
+                    log.debug("ndef message tlv exceeds the data area")
+                    return None
+
             return ndef
 
         def _write_ndef_data(self, data):
